@@ -2598,3 +2598,7 @@ mod tests {
         }
     }
 }
+
+#[cfg(any(kani, rescrv_blue_verif))]
+#[path = "/verif/hk/sst/lib.rs"]
+mod verif_harness;
